@@ -34,6 +34,14 @@ Theorem rib_fib_exact : forall shuffle, (forall l, Permutation (shuffle l) l) ->
 Proof. exact rib_fib_exact_thm. Qed.
 Print Assumptions rib_fib_exact.
 
+
+(* Strategy choice shares the FIB with the routes: strategy set/unset operations made directly on the FIB, interleaved
+   anywhere in the RIB history, change no next hop: the FIB entries are still exactly the flattening of the routes *)
+Theorem rib_fib_exact_with_strategy : forall shuffle, (forall l, Permutation (shuffle l) l) -> forall ms p, Forall mop_ok ms ->
+  Permutation (nhs (sget (run_spec (snd (mixed_run shuffle ms))) p)) (fib_want (routes_after (rib_ops ms)) p).
+Proof. exact rib_fib_exact_with_strategy_thm. Qed.
+Print Assumptions rib_fib_exact_with_strategy.
+
 (* hence every lookup returns longest-prefix match over { p |-> flatten p | p has routes } *)
 Theorem rib_flatten : forall shuffle, (forall l, Permutation (shuffle l) l) -> forall ops n,
   Permutation (spec_find_nh (fib_after shuffle ops) n) (want_lookup (routes_after ops) n).
